@@ -785,7 +785,8 @@ class C07(Check):
             "paths: host file + real grep -F, host command pipeline cat | grep -F, archive post-filter, Cleaner allow-list, "
             "AllowFilter.filter_content, apply_filters; in 30% a second caller with another allow-list enters the same Cleaner "
             "at the same time (SimPool, seeded schedule); implementations of the non-filterable spec built on the implementation "
-            "of the filterable one (one datasource, two registry points); "
+            "of the filterable one (one datasource, two registry points); command specs with keep_rc=True (40%); 0.2% filter "
+            "lists of 700-1500 long filters (35-100 kB on grep's command line) with one line per filter; "
             "non-trivial = a registration after a look-up, or content of >= 2 lines; distinct = digest of (history log, violations)")
     real_vs_stub = {
         "insights.core.filters.add_filter / get_filters / apply_filters (+ _CACHE, FILTERS)": "real",
